@@ -541,7 +541,7 @@ def r7(ctx):
     C18.r2(sub)
     n = 0
     for o in sub.obligations:
-        if "entry_put[" not in o["key"]:
+        if "entry_put[" not in o["key"] or "below-head" in o["key"]:
             continue
         o = dict(o)
         o["key"] = o["key"].replace("C18.R2", "C05.R7")
